@@ -286,6 +286,12 @@ def run(ctx):
             shape = [size, 5] if orient == 0 else [5, size]
             layout = [n, 1] if orient == 0 else [1, n]
             jobs.append(('long_layout', 'rooms', {'shape': shape, 'layout': layout}, ctx.pick(2, 8)))
+    # rooms of unequal sizes (the grid does not divide evenly into the layout): passages are placed per actual room
+    for size in ((6, 8, 9, 10, 12, 13, 14) if not ctx.thorough else range(5, 20)):
+        for n in (2, 3, 4):
+            if (size - 1) % n != 0 and size >= 3 * n:
+                jobs.append(('uneven_rooms', 'rooms', {'shape': [size, size], 'layout': [n, n]}, ctx.pick(40, 400)))
+                jobs.append(('uneven_rooms', 'rooms', {'shape': [size, size + 3], 'layout': [n, 2]}, ctx.pick(10, 100)))
     with reach(ctx, [getattr(reset_fs, n) for n in FAMILY_CONFIG]):
         if ctx.shard == 0:
             # the witness input of the listed known finding F1 is replayed on every run, so that the finding is always
